@@ -424,7 +424,7 @@ fn take_buffered(p: &mut stream::Parser, delivered: &mut BTreeMap<u8, Vec<u8>>) 
 // ---------------------------------------------------------------------------------------------
 // the relation
 
-fn test(c: &Case) -> TestResult {
+pub fn test(c: &Case) -> TestResult {
     let (wire_bytes, _nrec) = assemble(c);
     let cfg = syncdrv::config(c.buf as usize, c.max_conns as usize);
     let mut reference: Option<(ReqRes, Vec<u8>)> = None;
